@@ -26,8 +26,10 @@ def base_ppf(q):
 
 
 class D:
-    def __init__(self, k=F(1), loc=F(0)):
+    def __init__(self, k=F(1), loc=F(0), **kwds):
         self.k, self.loc = F(k), F(loc)
+        self.kwds = kwds            # as scipy's frozen distributions expose their parameters
+        self.args = ()
 
     def cdf(self, x):
         return base_cdf((F(x) - self.loc) * self.k)
@@ -55,7 +57,7 @@ def _mk_family(sqrt, exp, tk, normk, ncscale):
     class StubStats:
         @staticmethod
         def t(df):
-            return D(k=tk(F(df)))
+            return D(k=tk(F(df)), df=df)
 
         @staticmethod
         def norm(loc=0):
@@ -63,7 +65,7 @@ def _mk_family(sqrt, exp, tk, normk, ncscale):
 
         @staticmethod
         def nct(df, nc):
-            return D(k=tk(F(df)), loc=F(nc) * ncscale)
+            return D(k=tk(F(df)), loc=F(nc) * ncscale, df=df, nc=nc)
 
     return StubMath, StubStats
 
